@@ -4,8 +4,11 @@
    linked containers, the verif accessor of the table); this file decides
      kind 2: the snapshot contradicts the reference container of Spec.v (or, for set algebra, the
              mathematical result computed from the operands the implementation itself reported);
-     kind 1: the snapshot satisfies the property but differs from what the model of the code computes. *)
-From VF Require Import Common.Base C09.Model C09.Spec.
+     kind 1: the snapshot satisfies the property but differs from what the model of the code computes.
+   treeset / treebidimap are evaluated on the red-black-tree models of C01 (C09/TreeModel.v: rb_set_step, rb_bidi_step,
+   ts_union / ts_inter / ts_diff) with the built-in int comparator [zcmp]. *)
+From VF Require Import Common.Base C09.Model C09.Spec C09.TreeModel.
+From VF Require C01.Order.
 Local Open Scope Z_scope.
 
 Inductive mkind := KHash | KLinked.
@@ -103,20 +106,27 @@ Definition sobs_ok {S} (step : S -> sop Z -> S * sout Z) (ordered : bool) (s : S
   && sout_eqb ordered (snd (step s (SContains (s_query sn)))) (SOBool (s_qres sn))
   && forallb2 (fun x g => sout_eqb ordered (snd (step s (SContains [x]))) (SOBool g)) univ (s_has sn).
 
+Definition zcmp := VF.C01.Order.zcmp.
 Definition hs_model := gs_step Z.eqb (@ins_front Z unit).
-Definition ts_model := gs_step Z.eqb (@ins_sorted Z unit Z.ltb).
+Definition ts_model := rb_set_step zcmp.                 (* red-black treeset, C01/Containers.v *)
 Definition ls_model := ls_step Z.eqb (@ins_front Z unit).
 Definition oset_spec := oset_step Z.eqb.
 
-Definition gs_check (tree : bool) (univ : list Z) (st : list (Z * unit) * list Z) (x : sop Z * ssnap) :=
+Definition gs_check (univ : list Z) (st : list (Z * unit) * list Z) (x : sop Z * ssnap) :=
   let '(m, o) := st in
   let '(op, sn) := x in
-  let step := if tree then ts_model else hs_model in
-  let m' := fst (step m op) in
+  let m' := fst (hs_model m op) in
   let o' := fst (oset_spec o op) in
-  ((m', o'), kind_of (sobs_ok step tree m' univ sn)
-                     (sobs_ok oset_spec false o' univ sn && nodupZ (s_values sn)
-                      && (negb tree || strictly_sorted (s_values sn)))).
+  ((m', o'), kind_of (sobs_ok hs_model false m' univ sn)
+                     (sobs_ok oset_spec false o' univ sn && nodupZ (s_values sn))).
+
+Definition ts_check (univ : list Z) (st : ts_state (K:=Z) * list Z) (x : sop Z * ssnap) :=
+  let '(m, o) := st in
+  let '(op, sn) := x in
+  let m' := fst (ts_model m op) in
+  let o' := fst (oset_spec o op) in
+  ((m', o'), kind_of (sobs_ok ts_model true m' univ sn)
+                     (sobs_ok oset_spec false o' univ sn && nodupZ (s_values sn) && strictly_sorted (s_values sn))).
 
 Definition ls_check (univ : list Z) (st : lset Z * list Z) (x : sop Z * ssnap) :=
   let '(m, o) := st in
@@ -176,18 +186,25 @@ Definition bij_obs_ok (ku vu : list Z) (sn : bsnap) : bool :=
   && forallb (fun k => memZ k ku) (b_keys sn) && forallb (fun v => memZ v vu) (b_vals sn).
 
 Definition hb_model := hb_step Z.eqb Z.eqb (@ins_front Z Z) (@ins_front Z Z).
-Definition tb_model := hb_step Z.eqb Z.eqb (@ins_sorted Z Z Z.ltb) (@ins_sorted Z Z Z.ltb).
+Definition tb_model := rb_bidi_step zcmp zcmp 0 0.       (* two red-black trees, C01/Containers.v *)
 Definition bij_spec := bij_step Z.eqb Z.eqb.
 
-Definition hb_check (tree : bool) (ku vu : list Z) (st : bidi Z Z * list (Z * Z)) (x : bop Z Z * bsnap) :=
+Definition hb_check (ku vu : list Z) (st : bidi Z Z * list (Z * Z)) (x : bop Z Z * bsnap) :=
   let '(m, o) := st in
   let '(op, sn) := x in
-  let step := if tree then tb_model else hb_model in
-  let m' := fst (step m op) in
+  let m' := fst (hb_model m op) in
   let o' := fst (bij_spec o op) in
-  ((m', o'), kind_of (bobs_ok step tree m' ku vu sn)
+  ((m', o'), kind_of (bobs_ok hb_model false m' ku vu sn)
+                     (bobs_ok bij_spec false o' ku vu sn && bij_obs_ok ku vu sn)).
+
+Definition tb_check (ku vu : list Z) (st : T1.tb_state Z Z * list (Z * Z)) (x : bop Z Z * bsnap) :=
+  let '(m, o) := st in
+  let '(op, sn) := x in
+  let m' := fst (tb_model m op) in
+  let o' := fst (bij_spec o op) in
+  ((m', o'), kind_of (bobs_ok tb_model true m' ku vu sn)
                      (bobs_ok bij_spec false o' ku vu sn && bij_obs_ok ku vu sn
-                      && (negb tree || (strictly_sorted (b_keys sn) && strictly_sorted (b_vals sn))))).
+                      && strictly_sorted (b_keys sn) && strictly_sorted (b_vals sn))).
 
 (* ---------- set algebra ---------- *)
 Record asnap := AS { a_panic : bool;
@@ -228,18 +245,25 @@ Definition alg_model (k : skind) (op : aop) (aops bops : list (sop Z)) (sn : asn
       zlist_eqb (a_a0 sn) (sordering a) && zlist_eqb (a_b0 sn) (sordering b)
       (* the order of the result follows Go's map iteration order: compared as a set *)
       && perm_eqb (a_r sn) (sordering r) && perm_eqb (a_rtable sn) (gkeys (stable r))
-  | _ =>
-      let tree := match k with STree => true | _ => false end in
-      let step := if tree then ts_model else hs_model in
-      let ins := if tree then @ins_sorted Z unit Z.ltb else @ins_front Z unit in
-      let a := fst (run step [] aops) in
-      let b := fst (run step [] bops) in
+  | STree =>
+      let a := fst (run ts_model ts_empty aops) in
+      let b := fst (run ts_model ts_empty bops) in
+      let r := match op with
+               | AUnion => ts_union zcmp a b
+               | AInter => ts_inter zcmp a b
+               | ADiff => ts_diff zcmp a b
+               end in
+      zlist_eqb (a_a0 sn) (ts_values a) && zlist_eqb (a_b0 sn) (ts_values b) && zlist_eqb (a_r sn) (ts_values r)
+  | SHash =>
+      let ins := @ins_front Z unit in
+      let a := fst (run hs_model [] aops) in
+      let b := fst (run hs_model [] bops) in
       let r := match op with
                | AUnion => gs_union Z.eqb ins a b
                | AInter => gs_inter Z.eqb ins a b
                | ADiff => gs_diff Z.eqb ins a b
                end in
-      seq_eqb tree (a_a0 sn) (gs_values a) && seq_eqb tree (a_b0 sn) (gs_values b) && seq_eqb tree (a_r sn) (gs_values r)
+      perm_eqb (a_a0 sn) (gs_values a) && perm_eqb (a_b0 sn) (gs_values b) && perm_eqb (a_r sn) (gs_values r)
   end.
 
 (* ---------- cases ---------- *)
@@ -253,11 +277,11 @@ Definition check_case (c : case) : nat :=
   match c with
   | CMap KHash u steps => scan (hm_check u) ([], []) steps 0
   | CMap KLinked u steps => scan (lhm_check u) (lhm0, []) steps 0
-  | CSet SHash u steps => scan (gs_check false u) ([], []) steps 0
-  | CSet STree u steps => scan (gs_check true u) ([], []) steps 0
+  | CSet SHash u steps => scan (gs_check u) ([], []) steps 0
+  | CSet STree u steps => scan (ts_check u) (ts_empty, []) steps 0
   | CSet SLinked u steps => scan (ls_check u) (ls0, []) steps 0
-  | CBidi BHash ku vu steps => scan (hb_check false ku vu) (hb0, []) steps 0
-  | CBidi BTree ku vu steps => scan (hb_check true ku vu) (hb0, []) steps 0
+  | CBidi BHash ku vu steps => scan (hb_check ku vu) (hb0, []) steps 0
+  | CBidi BTree ku vu steps => scan (tb_check ku vu) (T1.tb_empty Z Z, []) steps 0
   | CAlg k op aops bops sn => kind_of (alg_model k op aops bops sn) (alg_prop k op sn)
   end.
 
